@@ -178,6 +178,20 @@ fn main()
             }
         }
     }
+    // ALL lists of length <= 4 over 0..=len+1 (so also several out-of-range elements, in every order relative to
+    // each other and to repeated elements): the specific error VALUE must be the documented one
+    for n in 1..=4usize
+    {
+        let base = (n + 2) as u64;
+        for code in 0..base.pow(n as u32)
+        {
+            let mut c = code;
+            let idxs: Vec<usize> = (0..n).map(|_| { let d = (c % base) as usize; c /= base; d }).collect();
+            if idxs.iter().all(|&x| x < n) { continue; }   // covered above
+            let r = catch(|| Permutation::new(idxs.clone()));
+            match r { None => out.case(&format!("new {}", join(&idxs)), "panic"), Some(r) => out.case(&format!("new {}", join(&idxs)), &show_new(&r)) }
+        }
+    }
     // out-of-range elements, larger sizes
     let nrand = if thorough() { 4000 } else { 600 };
     for _ in 0..nrand
@@ -188,7 +202,9 @@ fn main()
         match rng.below(4)
         {
             0 => { let i = rng.below(n as u64) as usize; idxs[i] = rng.below(n as u64 + 3) as usize; },
-            1 => { let i = rng.below(n as u64) as usize; idxs[i] = n + rng.below(5) as usize; },
+            1 => { let i = rng.below(n as u64) as usize; idxs[i] = n + rng.below(5) as usize;
+                   if rng.coin() { let j = rng.below(n as u64) as usize; idxs[j] = n + rng.below(9) as usize; }
+                   if rng.coin() && n > 2 { let j = rng.below(n as u64) as usize; let k = rng.below(n as u64) as usize; idxs[j] = idxs[k]; } },
             _ => {}
         }
         let r = Permutation::new(idxs.clone());
